@@ -36,8 +36,8 @@ class C10(core.Prop):
     EXTRA_TARGETS = ['Model/C10.vo', 'Lib/Corr.vo']
     RULE = (
         'windows: ordinal kind x semantic spelling x increasing bound sequence (bounds on data values, 0, negative, '
-        'open ends) x random data, run through Source.query -> Statement.prepare -> alchemy Parser -> sqlite; '
-        'prepared: Statement.Prepared.__call__ with/without ordinal and falsy bounds; train: Runner.train lower-bound '
+        'open ends) x random data, run in train AND apply mode through Source.query -> Feed.load -> driver actor -> Statement.prepare -> alchemy Parser -> sqlite; '
+        'prepared: Feed.load with/without ordinal and falsy bounds in both modes; train: Runner.train lower-bound '
         'continuation; alias: every spelling incl. case variants and junk. Non-trivial = a windows case with >= 2 '
         'windows and a data value equal to a bound, or a prepared/train case with a falsy bound.'
     )
@@ -141,31 +141,40 @@ class C10(core.Prop):
 
     # ---- Coq printing --------------------------------------------------------------------------------
     def coq_case(self, case, obs):
+        raise NotImplementedError
+
+    def coq_cases(self, case, obs):
         t = case['t']
+        if obs.get('error'):
+            # the model has no error outcome for a valid configuration: force a mismatch
+            return ["(C10.CWindows None nil [((None, None), [(0)%Z])])"]
         if t == 'windows':
-            rows = []
-            if obs.get('error'):
-                # the model has no error outcome for a valid configuration: force a mismatch
-                return f"(C10.CWindows {co(case['sp'], cs, 'String.string')} {cl([], 'Z')} [((None, None), [(0)%Z])])"
-            for (lo, hi), got in zip(zip(case['bounds'], case['bounds'][1:]), obs['rows']):
-                rows.append(cp(cp(co(lo, cz, 'Z'), co(hi, cz, 'Z')), cl([cz(v) for v in got], 'Z')))
-            return (
-                f"(C10.CWindows {co(case['sp'], cs, 'String.string')} {cl([cz(v) for v in case['data']], 'Z')} "
-                f"{cl(rows, '(option Z * option Z) * list Z')})"
-            )
+            terms = []
+            for mode in ('train', 'apply'):
+                rows = []
+                for (lo, hi), got in zip(zip(case['bounds'], case['bounds'][1:]), obs['rows'][mode]):
+                    rows.append(cp(cp(co(lo, cz, 'Z'), co(hi, cz, 'Z')), cl([cz(v) for v in got], 'Z')))
+                terms.append(
+                    f"(C10.CWindows {co(case['sp'], cs, 'String.string')} {cl([cz(v) for v in case['data']], 'Z')} "
+                    f"{cl(rows, '(option Z * option Z) * list Z')})"
+                )
+            return terms
         if t == 'prepared':
-            o = obs['verdict']
-            if o == 'refused':
-                term = 'C10.Refused'
-            elif o == 'unfiltered':
-                term = 'C10.Unfiltered'
-            else:
-                term = f"(C10.Filtered {co(obs['lo'], cz, 'Z')} {co(obs['hi'], cz, 'Z')})"
-            return f"(C10.CPrepared {cb(case['ordinal'])} {co(case['lo'], cz, 'Z')} {co(case['hi'], cz, 'Z')} {term})"
+            terms = []
+            for mode in ('train', 'apply'):
+                o = obs[mode]
+                if o['verdict'] == 'refused':
+                    term = 'C10.Refused'
+                elif o['verdict'] == 'unfiltered':
+                    term = 'C10.Unfiltered'
+                else:
+                    term = f"(C10.Filtered {co(o['lo'], cz, 'Z')} {co(o['hi'], cz, 'Z')})"
+                terms.append(f"(C10.CPrepared {cb(case['ordinal'])} {co(case['lo'], cz, 'Z')} {co(case['hi'], cz, 'Z')} {term})")
+            return terms
         if t == 'train':
-            return f"(C10.CTrain {co(case['lo'], cz, 'Z')} {co(case['tag'], cz, 'Z')} {co(obs['lower'], cz, 'Z')})"
+            return [f"(C10.CTrain {co(case['lo'], cz, 'Z')} {co(case['tag'], cz, 'Z')} {co(obs['lower'], cz, 'Z')})"]
         if t == 'alias':
-            return f"(C10.CAlias {cs(case['sp'])} {co(obs['sem'], lambda s: s, 'sem')})"
+            return [f"(C10.CAlias {cs(case['sp'])} {co(obs['sem'], lambda s: s, 'sem')})"]
         raise ValueError(t)
 
     # ---- property oracle (from the property text, independent of the model) ------------------------------
@@ -174,13 +183,33 @@ class C10(core.Prop):
         if t == 'windows':
             if obs.get('error'):
                 return f"valid window configuration raised {obs['error']}"
-            sem = (obs['sem'] or '').lower()
+            for mode in ('train', 'apply'):
+                problem = self._windows_oracle(case, obs['sem'], obs['rows'][mode])
+                if problem:
+                    return f'{mode} mode: {problem}'
+            return None
+        if t == 'prepared':
+            for mode in ('train', 'apply'):
+                problem = self._prepared_oracle(case, obs[mode])
+                if problem:
+                    return f'{mode} mode: {problem}'
+            return None
+        if t == 'train':
+            if case['lo'] is not None and obs['lower'] != case['lo']:
+                return f"explicit lower bound {case['lo']} replaced by {obs['lower']}"
+            return None
+        return None
+
+    @staticmethod
+    def _windows_oracle(case, sem, rows):
+        if True:
+            sem = (sem or '').lower()
             bounds = [b for b in case['bounds'] if b is not None]
             open_lo, open_hi = case['bounds'][0] is None, case['bounds'][-1] is None
             for v in set(case['data']):
                 mult = case['data'].count(v)
-                got = sum(r.count(v) for r in obs['rows']) // mult
-                if any(r.count(v) % mult for r in obs['rows']):
+                got = sum(r.count(v) for r in rows) // mult
+                if any(r.count(v) % mult for r in rows):
                     return f'record {v} partially delivered'
                 inside = (open_lo or v >= bounds[0]) and (open_hi or v <= bounds[-1])
                 strictly = (open_lo or v > bounds[0]) and (open_hi or v < bounds[-1])
@@ -197,7 +226,10 @@ class C10(core.Prop):
                 if sem == 'exactly' and strictly and got != 1:
                     return f'exactly-once delivered interior record {v} {got}x'
             return None
-        if t == 'prepared':
+
+    @staticmethod
+    def _prepared_oracle(case, obs):
+        if True:
             given = case['lo'] is not None or case['hi'] is not None
             if not case['ordinal'] and given and obs['verdict'] != 'refused':
                 return f"bounds lo={case['lo']} hi={case['hi']} given to a source without ordinal were not refused"
@@ -206,11 +238,6 @@ class C10(core.Prop):
             if not given and obs['verdict'] != 'unfiltered':
                 return 'no bounds but the statement was changed'
             return None
-        if t == 'train':
-            if case['lo'] is not None and obs['lower'] != case['lo']:
-                return f"explicit lower bound {case['lo']} replaced by {obs['lower']}"
-            return None
-        return None
 
     def signature(self, case, obs, problem):
         return None
